@@ -313,6 +313,20 @@ def mkEst (s : St) (i : Id) : St :=
     pollSet s1 i { c := true }
   else s
 
+/-- object `i` is in one of the four pools -/
+def liveB (s : St) (i : Id) : Bool :=
+  (s.timers i).isSome || (s.clients i).isSome || (s.listeners i).isSome || (s.ests i).isSome
+
+/-- `Server::clear()` (Server.cpp 427-439) with `Poll::clear` (Socket.cpp 1249-1259): every pool, the timer queue, the closing
+    set and both poll tables are emptied, the default timer is re-inserted, `_interrupted` is reset.  The event descriptor is
+    NOT drained (Poll::clear keeps `eventFd` and only re-creates the epoll descriptor): after an un-consumed interrupt() the
+    next epoll_wait reports it once more (spurious wake-up, `clear_stale_wakeup_is_harmless`).  Called outside run() only:
+    inside onAccepted/onConnected the C++ would write `client._callback` into freed pool memory. -/
+def clearAll (s : St) : St :=
+  { s with queue := [(0, none)], timers := fun _ => none, clients := fun _ => none, listeners := fun _ => none,
+           ests := fun _ => none, closing := [], sockets := [], selected := [], interrupted := false,
+           gone := fun i => s.gone i || liveB s i }
+
 /-- one API call; `newc` = the client being handed to the running onAccepted/onConnected -/
 def applyAct (s : St) (newc : Option Id) : Act → St
   | .mkTimer i iv => mkTimer s i iv
